@@ -29,6 +29,7 @@ CONSTANTS D,          \* system dimension
           Controls,   \* set of control schedules; a schedule is a set of entries
                       \*   <<step, post?, ctlId, insertion index, kind>>, kind "int" (time given as step),
                       \*   "f-" / "f+" (time given as a float a little before / after the step's time)
+          FixedPlan,  \* << >>: gates are chosen freely from the alphabets; otherwise the exact plan to follow
           Devs,       \* enabled deviations (known findings), {} = strict specification
           Emit
 
@@ -38,8 +39,9 @@ PhaseTab == << <<0, 0, 0, 0>>, <<0, 1, 2, 3>>, <<0, 3, 1, 2>> >>
 \* control operations (superoperators on the system), by id:
 \*   1 identity, 2 unitary kick: shift by 1 and phase table 2, scaled by the prime of its step,
 \*   3 projector onto level 0, 4 left multiplication by a diagonal operator ("A"),
-\*   5 kick by shift 1 without scale
-CtlIds == 1..5
+\*   5 kick by shift 1 without scale, 6 left multiplication by "B",
+\*   7 / 8 right multiplication by "A" / "B" (operator insertions of multi-time correlations)
+CtlIds == 1..8
 
 E == Len(EDims)
 
@@ -88,7 +90,10 @@ ApplyCtl(tms, r, id) ==
                             IN [x EXCEPT !.f = Append(tm.f, <<"p", Prime(r)>>)]
                [] id = 3 -> IF tm.k[1] = 0 /\ tm.b[1] = 0 THEN tm ELSE Dead
                [] id = 4 -> [tm EXCEPT !.f = Append(tm.f, <<"A", tm.k[1]>>)]
-               [] id = 5 -> ApplyBoth(tm, LAMBDA q : SysGate(q, <<1, 1>>), LAMBDA q : SysGate(q, <<1, 1>>))]
+               [] id = 5 -> ApplyBoth(tm, LAMBDA q : SysGate(q, <<1, 1>>), LAMBDA q : SysGate(q, <<1, 1>>))
+               [] id = 6 -> [tm EXCEPT !.f = Append(tm.f, <<"B", tm.k[1]>>)]      \* left multiplication by B
+               [] id = 7 -> [tm EXCEPT !.f = Append(tm.f, <<"A", tm.b[1]>>)]      \* right multiplication by A
+               [] id = 8 -> [tm EXCEPT !.f = Append(tm.f, <<"B", tm.b[1]>>)]]     \* right multiplication by B
 
 \* controls of step r on one side of the measurement.  Strict meaning: insertion order.
 \* Deviation "MixedTimeSpecOrder" (oqupy/control.py get_controls): pre-measurement controls
@@ -150,6 +155,7 @@ Post ==
 Half(which, nextphase) ==
     /\ pc[2] = which
     /\ \E g \in SysGates :
+        /\ (FixedPlan = << >> \/ FixedPlan[Len(plan) + 1] = <<which, pc[1], g>>)
         /\ terms' = ApplySys(g)
         /\ plan' = Append(plan, <<which, pc[1], g>>)
     /\ pc' = nextphase
@@ -163,6 +169,7 @@ Env ==
     /\ LET e == pc[3] IN
        /\ \E nm \in EnvGates :
             /\ (nm = "SW" => EDims[e] = D)
+            /\ (FixedPlan = << >> \/ FixedPlan[Len(plan) + 1] = <<"env", pc[1], e, nm>>)
             /\ terms' = ApplyEnv(e, nm)
             /\ plan' = Append(plan, <<"env", pc[1], e, nm>>)
        /\ pc' = IF e = E THEN <<pc[1], "h2">> ELSE <<pc[1], "env", e + 1>>
@@ -188,7 +195,7 @@ DiagonalStaysDiagonal ==
 
 \* hermiticity: the term of (s', s) is the mirror image of the term of (s, s')
 Hermitian ==
-    (\A c \in ctl : c[3] # 4) => \A p \in Pairs : LET q == <<p[2], p[1]>> IN
+    (\A c \in ctl : c[3] \notin {4, 6, 7, 8}) => \A p \in Pairs : LET q == <<p[2], p[1]>> IN
         (terms[p].alive /\ terms[q].alive) =>
             (terms[p].k = terms[q].b /\ terms[p].b = terms[q].k /\ (terms[p].ph + terms[q].ph) % M = 0)
 
